@@ -315,13 +315,29 @@ func computeCollidePool() {
 		}
 	}
 	collidingNames = res
+	// two names that share the first 24 bits (same level-1 AND level-2 directory: mail/xxx/xxxxxx/<hash>)
+	h6 := func(s string) string { x := sha1.Sum([]byte(s)); return hex.EncodeToString(x[:])[:6] }
+	seen := map[string]string{}
+	for i := 0; i < 200000 && len(deepColliding) == 0; i++ {
+		n := fmt.Sprintf("user%d", i)
+		k := h6(n)
+		if o, ok := seen[k]; ok {
+			deepColliding = []string{o, n}
+		}
+		seen[k] = n
+	}
 }
+
+var deepColliding []string
 
 func storeNames(r *rand.Rand) []string {
 	pool := append([]string{}, collidePool()...)
 	pool = append(pool, "bob", "user@example.com", "We!rd#$%&'*=/?^_`{|}~", "[1.2.3.4]", "", "x.y", "UPPER")
 	r.Shuffle(len(pool), func(i, j int) { pool[i], pool[j] = pool[j], pool[i] })
 	names := pool[:2+r.Intn(3)]
+	if len(deepColliding) == 2 && r.Intn(4) == 0 {
+		names = append([]string{deepColliding[0], deepColliding[1]}, names[:1+r.Intn(2)]...)
+	}
 	// mailbox names are exact byte strings to a store (the address policy canonicalises, POP3 / Lua / direct callers need not):
 	// names that differ only in case, or by a trailing blank or dot, are different mailboxes
 	if r.Intn(3) == 0 {
